@@ -62,6 +62,18 @@ func add(s *cases.Set, b []byte, kind string) {
 		}
 	}
 	key := fmt.Sprintf("dec:%x", b)
+	s.Remember(key, o+" "+ore+" "+oagain, map[string]interface{}{"api": "PHYPayload.UnmarshalBinary then MarshalBinary", "bytes": fmt.Sprintf("%x", b)}, func() string {
+		q, o, ok := decode(b)
+		ore, oagain := cq.Err, cq.Err
+		if ok {
+			var b2 []byte
+			b2, ore = encode(q)
+			if b2 != nil {
+				_, oagain, _ = decode(b2)
+			}
+		}
+		return o + " " + ore + " " + oagain
+	})
 	s.Add(cases.Case{Term: fmt.Sprintf("CDecode %s %s %s %s", cq.Bytes(b), o, ore, oagain), Key: key, Kind: kind, Nontrivial: ok,
 		Replay: map[string]interface{}{"api": "PHYPayload.UnmarshalBinary then MarshalBinary", "bytes": fmt.Sprintf("%x", b)}})
 }
@@ -166,6 +178,7 @@ func main() {
 			add(s, m2, "foptslen-mutated")
 		}
 	}
+	s.ReplayRemembered(nr.Intn, 3, func() { noise.Step(nr) })
 	if err := s.Finish(); err != nil {
 		fmt.Fprintln(os.Stderr, err)
 		os.Exit(2)
